@@ -59,6 +59,8 @@ fn native_misc_registry0() -> Vec<(&'static str, fn(&mut crate::src::EnumSrc))> 
         ("nintro_navigate", (|s: &mut crate::src::EnumSrc| crate::native_misc::intro_navigate(s)) as fn(&mut crate::src::EnumSrc)),
         // n(nabi_pairs, "C09,C10,C11", "AbiConnection::new_internal; AbiConnection::analyze_and_create; arg_layout_compatible; abi_entry_light; savefile_abi_exportable output (caller and callee trampolines, closure wrappers, boxed-closure wrappers); parse_return_value_impl", "one interface in versions 0 and 1 (struct argument and return type gaining a field), 4 caller/implementation combinations x 8 methods (versioned fields first on the wire, so a wrong-version encoding shifts the retained fields) x small-scope argument values");
         ("nabi_pairs", (|s: &mut crate::src::EnumSrc| crate::native_abi::abi_pairs(s)) as fn(&mut crate::src::EnumSrc)),
+        // n(nabi_more, "C09,C10", "savefile_abi_exportable output for &str / String / &[T] / Vec / Result / Option / &mut dyn FnMut arguments and returns; FlexBuffer (arguments beyond the inline buffer); AbiConnection::analyze_and_create (method matching by name)", "4 caller/implementation combinations whose traits list the methods in different orders x String lengths 0..70000 x slice lengths 0..5000 x small-scope bytes");
+        ("nabi_more", (|s: &mut crate::src::EnumSrc| crate::native_abi::abi_more(s)) as fn(&mut crate::src::EnumSrc)),
         // n(nabi_wide, "C09,C11", "AbiConnection::analyze_and_create (by-reference mask); savefile_abi_exportable output for a 40-argument method", "one 40-argument method; one argument and one string length vary");
         ("nabi_wide", (|s: &mut crate::src::EnumSrc| crate::native_abi::abi_wide(s)) as fn(&mut crate::src::EnumSrc)),
         // n(nabi_incompatible, "C10", "AbiConnection::analyze_and_create (argument count, argument type, return type checks)", "3 incompatible signature pairs and the identical pair");
